@@ -36,6 +36,11 @@ func (p c08) Run(c *core.Ctx) {
 		hm.POptional = 0.85
 		holders = append(holders, LiteralHolder(c.Rng, h, 1+c.Rng.Intn(5), g.Sc, hm))
 	}
+	if c.Rng.Intn(3) == 0 {
+		// a holder that is a post-processor itself: wired while the chain is being set up
+		holders = append(holders, &world.QualPP{})
+		c.Count("cases_with_a_post_processor_holder", 1)
+	}
 	prov := LeanProviders(c.Rng)
 	repairUnsatisfiable(c, g, holders, 0.9, prov...)
 	runModelCase(c, g, holders, 4, true, nil, prov, func(exp world.Expect) bool {
